@@ -2,8 +2,7 @@ import SMV.Exec
 /-
   `Static` — the rustc rules the properties rely on, over the emitted code (DESIGN §4.4).
   Every *rejection* rule below is a real rustc rule (E0428 duplicate item, E0124 duplicate field,
-  E0592 duplicate inherent method on overlapping self types, E0119 conflicting trait impls, E0004
-  non-exhaustive match on an uninhabited-by-reference enum), so `¬ accepted ⇒ rustc rejects` is
+  E0592 duplicate inherent method on overlapping self types, E0119 conflicting trait impls), so `¬ accepted ⇒ rustc rejects` is
   sound; the converse is not claimed (rustc's acceptance is established by T4 probe crates).
   The lookup functions model inherent-method resolution on `M<_, s>` for callers outside the
   generated code. Modelled, validated by T4; not proved.
@@ -83,7 +82,6 @@ def accepted (c : Code) : Bool :=
   (markerNames c).all (fun s => decide (methodNames c s).Nodup) &&          -- E0592
   decide (eventVariants c).Nodup && decide (anyVariants c).Nodup &&        -- E0428 (variants)
   decide (substatePairs c).Nodup &&                                        -- E0119
-  decide (dynMethods c).Nodup &&                                           -- E0592
-  (!hasDynamic c || !(eventVariants c).isEmpty)                            -- E0004: `match self {}` on `&Event`
+  decide (dynMethods c).Nodup                                              -- E0592
 
 end SMV.Static
